@@ -1346,6 +1346,100 @@ CHECKS = {"identity": identity_check, "requery": requery_check, "reiter": reiter
           "cyclic": cyclic_check, "rescan": rescan_check}
 
 
+# ---------------- C11 / C16 / C20: a live iterator whose consumer edits what it is handed ----------------
+
+LIVE_ACTIONS = {
+    # (container kind, step kind) -> edits the consumer may make between two next() calls
+    ("dict", "wc"): ["assign", "replace_all"], ("dict", "gwc"): ["assign", "replace_all"], ("dict", "igwc"): ["assign", "replace_all"],
+    ("dict", "t"): ["assign", "replace_all", "pop_member", "clear"],
+    ("list", "iwc"): ["assign", "replace_all", "pop_last", "clear"], ("list", "gwc"): ["assign", "replace_all", "pop_last", "clear"],
+    ("list", "igwc"): ["assign", "replace_all", "pop_last", "clear"], ("list", "t"): ["assign", "replace_all", "pop_last", "clear"],
+    ("list", "s"): ["assign"],       # (a slice step works on a copy of the selected range: members replaced later are delivered as they were)
+}
+
+
+def live_edit_check(sc):
+    """the ordinary "update every entry" loop: the consumer of find_matches edits the container it is being handed
+    the members of — assigns through the Match, replaces values, removes members not yet delivered, empties it.
+    Whatever it does, each Match is true when it is delivered (its parent holds its data under its name), the
+    iteration ends, with StopIteration; and edits that keep every member in place deliver every member once."""
+    doc = dec(sc["doc"])
+    ref = dec(sc["doc"])
+    expr = Builder([]).steps(sc["path"])
+    want = [m.path_as_str for m in find_matches(Builder([]).steps(sc["path"]), ref)]
+    action = sc["action"]
+    it = find_matches(expr, doc)
+    got = []
+    try:
+        for k in range(len(want) + 60):
+            m = next(it)
+            par = m.parent
+            try:
+                held = par.data[m.data_name]
+            except Exception as e:  # noqa
+                return f"delivered {m.path_as_str}, which its parent does not hold ({type(e).__name__})", True
+            if held is not m.data:
+                return f"delivered {m.path_as_str} with data {m.data!r:.40} while the document holds {held!r:.40} there", True
+            got.append(m.path_as_str)
+            c = par.data
+            if action == "assign":
+                m.data = {"edited": k}
+            elif action == "replace_all":
+                for key in (list(c.keys()) if isinstance(c, dict) else range(len(c))):
+                    c[key] = [key]
+            elif action == "pop_last":
+                if len(c) > 1:
+                    c.pop()
+            elif action == "pop_member":
+                for key in list(c.keys()):
+                    if key != m.data_name:
+                        del c[key]
+                        break
+            elif action == "clear":
+                c.clear()
+        return f"still delivering after {len(got)} results ({len(want)} members): {got[-3:]}", True
+    except StopIteration:
+        pass
+    except TreepathException as e:
+        return f"ended with {type(e).__name__} after {len(got)} results", True
+    except Exception as e:  # noqa
+        return f"leaked {type(e).__name__}: {str(e)[:60]} after {len(got)} results", True
+    if action in ("assign", "replace_all") and got != want:
+        return f"with members only replaced in place the search delivered {got}, an undisturbed one {want}", True
+    return None, len(want) > 1
+
+
+def live_edit_oracle(ctx):
+    def make(rng):
+        import gen_mut
+        for _ in range(60):
+            doc = gen.gen_doc(rng)
+            if not isinstance(doc, dict):
+                doc = {"a": doc, "l": [1, {"k": 2}, [3], "s"], "d": {"x": 1, "y": [2], "z": {"w": 3}}}
+            locs = [l for l in gen_mut.locations(doc) if isinstance(gen_mut.node_at(doc, l), (dict, list)) and len(gen_mut.node_at(doc, l)) >= 2]
+            if not locs:
+                continue
+            loc = rng.choice(locs)
+            c = gen_mut.node_at(doc, loc)
+            pre = [["k", nm] if isinstance(nm, str) else ["i", nm] for nm in loc]
+            if isinstance(c, dict):
+                kind = rng.choice(["wc", "gwc", "igwc", "t"])
+                step = [kind] if kind != "t" else ["t", list(c.keys())]
+                ck = "dict"
+            else:
+                kind = rng.choice(["iwc", "gwc", "igwc", "t", "s"])
+                n = len(c)
+                step = [kind] if kind in ("iwc", "gwc", "igwc") else (["t", rng.choice([list(range(n)), [0, -1], list(range(-n, 0))])] if kind == "t"
+                                                                  else ["s", None, None, None])
+                ck = "list"
+            return {"doc": enc(doc), "path": pre + [step], "action": rng.choice(LIVE_ACTIONS[(ck, kind)])}
+        return {"doc": enc({"l": [1, 2, 3]}), "path": [["k", "l"], ["iwc"]], "action": "assign"}
+    _run(ctx, "live_edit", 400, 8000, make, live_edit_check)
+
+
+CHECKS["live_edit"] = live_edit_check
+
+
 # ---------------- C06: read-only calls leave the document and the path as they were ----------------
 
 def snapshot(v, stack=None):
